@@ -25,7 +25,7 @@ func abs(x int) int {
 }
 
 var c11Opt = evGenOpt{
-	Tree:      ck.GenOpt{MinBlocks: 6, MaxBlocks: 36, Epochs: []uint64{3, 4}, Validators: []int{1, 3, 4}, Txs: true, Sup: true},
+	Tree:      ck.GenOpt{MinBlocks: 6, MaxBlocks: 36, Epochs: []uint64{3, 4}, Validators: []int{1, 3, 4}, Txs: true, Sup: true, BadSup: true},
 	Votes:     true,
 	Early:     true,
 	MaxEvents: 14,
